@@ -1135,7 +1135,9 @@ DOMServices::isNodeAfter(
                     if (0 == prevChild1) // first time in loop?
                     {
                         // Edge condition: one is the ancestor of the other.
-                        isNodeAfter = (nParents1 < nParents2) ? true : false;
+                        // The descendant, which has the longer ancestor
+                        // chain, is after its ancestor.
+                        isNodeAfter = (nParents1 > nParents2) ? true : false;
 
                         break; // from while loop
                     }
